@@ -260,10 +260,13 @@ class Natives(object):
         R('Pin::as_mut', lambda m, th, a, g: St('Pin', {0: _pin_target(m, a[0], g)}))
         # ---- Box
         def box_new(m, th, a, g):
-            c = m.alloc(th, ('box',) + m.cur_site, 'box@' + m.cur_site_name)
-            if c.id in m.freed: m.freed[c.id] = And(m.freed[c.id], Not(g))
-            m.store(Ref.to(c), a[0], g)
-            return St('Box', {'p': Ref.to(c)})
+            tg = []
+            for cg, c in m.alloc_n(th, ('box',) + m.cur_site, 'box@' + m.cur_site_name, g):
+                gg = And(g, cg)
+                if c.id in m.freed: m.freed[c.id] = And(m.freed[c.id], Not(gg))
+                m.store(Ref.to(c), a[0], gg)
+                tg.append((cg, c, ()))
+            return St('Box', {'p': Ref(tg)})
         R('Box::new', box_new)
         R('Box::into_raw', lambda m, th, a, g: a[0].f['p'] if isinstance(a[0], St) else POISON)
         R('Box::from_raw', lambda m, th, a, g: St('Box', {'p': a[0]}))
@@ -285,11 +288,13 @@ class Natives(object):
         T('Drop', 'drop', 'Box', lambda m, th, a, g: Dispatch([(TRUE, s.fn_box_free, [m.load(a[0], g).f['p']], 'boxcontent')]))
         # ---- Arc / Weak
         def arc_new(m, th, a, g):
-            c = m.alloc(th, ('arc',) + m.cur_site, 'arc@' + m.cur_site_name)
             pinned = s.arc_pinned(m.cur_callee)
-            m.store(Ref.to(c), St('ArcInner', {'strong': ONE, 'weak': ONE, 'data': a[0]}), g)
-            if pinned: s.pinned.add(c.id)
-            return St('Arc', {'p': Ref.to(c)})
+            tg = []
+            for cg, c in m.alloc_n(th, ('arc',) + m.cur_site, 'arc@' + m.cur_site_name, g):
+                m.store(Ref.to(c), St('ArcInner', {'strong': ONE, 'weak': ONE, 'data': a[0]}), And(g, cg))
+                if pinned: s.pinned.add(c.id)
+                tg.append((cg, c, ()))
+            return St('Arc', {'p': Ref(tg)})
         s.pinned = set()
         R('Arc::new', arc_new)
         def arc_data(m, arc, g):
@@ -490,11 +495,13 @@ class Natives(object):
         R('JoinHandle::join', join, visible=True, enabled=join_en)
         # ---- mpsc
         def channel(m, th, a, g):
-            c = m.alloc(th, ('chan',) + m.cur_site, 'chan@' + m.cur_site_name)
-            f = {'len': ZERO, 'senders': ONE, 'rx_alive': TRUE}
-            for i in range(m.CAP): f[i] = None
-            m.store(Ref.to(c), St('Chan', f), g)
-            return St('tuple', {0: St('Sender', {'c': Ref.to(c)}), 1: St('Receiver', {'c': Ref.to(c)})})
+            tg = []
+            for cg, c in m.alloc_n(th, ('chan',) + m.cur_site, 'chan@' + m.cur_site_name, g):
+                f = {'len': ZERO, 'senders': ONE, 'rx_alive': TRUE}
+                for i in range(m.CAP): f[i] = None
+                m.store(Ref.to(c), St('Chan', f), And(g, cg))
+                tg.append((cg, c, ()))
+            return St('tuple', {0: St('Sender', {'c': Ref(tg)}), 1: St('Receiver', {'c': Ref(list(tg))})})
         R('mpsc::channel', channel)
         def send(m, th, a, g):
             sd = m.load(a[0], g)
@@ -797,9 +804,11 @@ def install_futures(s):
     R('__waker_drop', waker_drop)
     # ---- futures::channel::oneshot (one atomic object per channel; its lock-free internals are assumed linearisable)
     def one_channel(m, th, a, g):
-        c = m.alloc(th, ('oneshot',) + m.cur_site, 'oneshot@' + m.cur_site_name)
-        m.store(Ref.to(c), St('Oneshot', {'val': NoneV(), 'tx_done': FALSE, 'rx_done': FALSE, 'rx_waker': NoneV(), 'tx_waker': NoneV()}), g)
-        return St('tuple', {0: St('OneSender', {'c': Ref.to(c)}), 1: St('OneReceiver', {'c': Ref.to(c)})})
+        tg = []
+        for cg, c in m.alloc_n(th, ('oneshot',) + m.cur_site, 'oneshot@' + m.cur_site_name, g):
+            m.store(Ref.to(c), St('Oneshot', {'val': NoneV(), 'tx_done': FALSE, 'rx_done': FALSE, 'rx_waker': NoneV(), 'tx_waker': NoneV()}), And(g, cg))
+            tg.append((cg, c, ()))
+        return St('tuple', {0: St('OneSender', {'c': Ref(tg)}), 1: St('OneReceiver', {'c': Ref(list(tg))})})
     R('oneshot::channel', one_channel)
     def one_send(m, th, a, g):
         sd = a[0]
